@@ -40,18 +40,19 @@ var c08Metrics = sync.OnceValue(func() *metricstorage.MetricStorage {
 var cmGVR = schema.GroupVersionResource{Group: "", Version: "v1", Resource: "configmaps"}
 
 type c08Env struct {
-	c      *Case
-	fc     *fake.Cluster
-	ns     string
-	inf    *kem.VerifInformerC08
-	jq     string
-	mu     sync.Mutex
-	events []kemtypes.KubeEvent
-	ids    *Interner
-	cks    ckInterner
-	states map[string]map[string]any // name -> last delivered state
-	hide   string                    // name of the marker object (cluster mode), never shown
-	cancel context.CancelFunc
+	c       *Case
+	fc      *fake.Cluster
+	ns      string
+	inf     *kem.VerifInformerC08
+	jq      string
+	mu      sync.Mutex
+	events  []kemtypes.KubeEvent
+	ids     *Interner
+	cks     ckInterner
+	states  map[string]map[string]any // name -> last delivered state
+	hide    string                    // name of the marker object (cluster mode), never shown
+	loadErr bool                      // createSharedInformer failed (the filter fails on a listed object)
+	cancel  context.CancelFunc
 }
 
 func (e *c08Env) takeEvents() []kemtypes.KubeEvent {
@@ -190,6 +191,7 @@ func c08Setup(c *Case, types []kemtypes.WatchEventType, useDefault bool, f *jqF,
 	ans := "cache=" + e.cacheText()
 	if err != nil {
 		ans = "err"
+		e.loadErr = true
 	}
 	c.Op(strings.TrimSpace("load "+strings.Join(loadArgs, " ")), ans)
 	if err == nil {
@@ -384,11 +386,11 @@ func c08History(e *c08Env, rng *Rng, f *jqF, names []string, steps int) (changes
 	return changes
 }
 
-func lit(v any) *jqF             { return &jqF{Kind: "lit", Lit: v} }
-func path(ks ...string) *jqF     { return &jqF{Kind: "path", Path: ks} }
-func arrF(items ...*jqF) *jqF    { return &jqF{Kind: "arr", Items: items} }
-func altF(a, b *jqF) *jqF        { return &jqF{Kind: "alt", A: a, B: b} }
-func objF(fs ...jqField) *jqF    { return &jqF{Kind: "obj", Fields: fs} }
+func lit(v any) *jqF               { return &jqF{Kind: "lit", Lit: v} }
+func path(ks ...string) *jqF       { return &jqF{Kind: "path", Path: ks} }
+func arrF(items ...*jqF) *jqF      { return &jqF{Kind: "arr", Items: items} }
+func altF(a, b *jqF) *jqF          { return &jqF{Kind: "alt", A: a, B: b} }
+func objF(fs ...jqField) *jqF      { return &jqF{Kind: "obj", Fields: fs} }
 func fld(k string, f *jqF) jqField { return jqField{k, f} }
 
 func c08Obj(ns, name string, replicas int64, a any, x int64) map[string]any {
@@ -577,6 +579,11 @@ func c08ClusterCase(c *Case, rng *Rng) {
 	}
 	e := c08Setup(c, subsetTypes(mask), false, f, keep, initial)
 	e.hide = "zz"
+	if e.loadErr {
+		// the monitor would not be created at all (CreateInformers returns the error): nothing to start
+		c.Note("mode:cluster-load-error")
+		return
+	}
 	ctx, cancel := context.WithCancel(context.Background())
 	defer cancel()
 	e.inf.Start(ctx)
